@@ -15,12 +15,13 @@ type helper struct {
 }
 
 type pg struct {
-	r       *rand.Rand
-	lines   []string
-	nv      int
-	helpers []helper
-	feat    map[string]bool
-	noLoops bool // straight-line and branching programs only (the domain of the partial theorem)
+	r        *rand.Rand
+	lines    []string
+	nv       int
+	helpers  []helper
+	generics []string // names of generic helpers (SetBreakpoints with a line request dies on such programs: F19-2)
+	feat     map[string]bool
+	noLoops  bool // straight-line and branching programs only (the domain of the partial theorem)
 }
 
 func (p *pg) emit(ind int, format string, a ...interface{}) {
@@ -62,7 +63,7 @@ func (p *pg) cond(vars, bools []string) string {
 	if len(bools) > 0 && p.r.Intn(3) == 0 {
 		return bools[p.r.Intn(len(bools))]
 	}
-	switch p.r.Intn(5) {
+	switch p.r.Intn(6) {
 	case 0:
 		return p.atom(vars) + " < " + fmt.Sprint(p.r.Intn(6))
 	case 1:
@@ -71,8 +72,11 @@ func (p *pg) cond(vars, bools []string) string {
 		return p.atom(vars) + " > " + p.atom(vars)
 	case 3:
 		return p.atom(vars) + " != " + fmt.Sprint(p.r.Intn(4))
-	default:
+	case 4:
 		return p.atom(vars) + " > 1 && " + p.atom(vars) + " < 9"
+	default:
+		// short circuits: several branching nodes on one line
+		return p.atom(vars) + " > 3 || " + p.atom(vars) + " < 2 && " + p.atom(vars) + " != 1"
 	}
 }
 
@@ -111,12 +115,12 @@ func (p *pg) block(ind int, vars, ro, bools []string, depth, n int, inLoop bool)
 	all := func() []string { return append(append([]string(nil), vars...), ro...) }
 	var defined []string
 	for k := 0; k < n; k++ {
-		choice := p.r.Intn(20)
-		if depth >= 3 && choice >= 8 && choice <= 13 {
+		choice := p.r.Intn(27)
+		if depth >= 3 && (choice >= 8 && choice <= 13 || choice >= 20) {
 			choice = p.r.Intn(8)
 		}
-		if p.noLoops && (choice == 10 || choice == 11 || choice == 15 || choice == 16) {
-			choice = 8 + p.r.Intn(2)*4 // a branch or a switch instead
+		if p.noLoops && (choice == 10 || choice == 11 || choice == 15 || choice == 16 || (choice >= 20 && choice <= 23)) {
+			choice = []int{8, 12, 24, 25}[p.r.Intn(4)] // a branch or a switch instead
 		}
 		switch {
 		case choice == 0 || len(vars) == 0:
@@ -266,6 +270,93 @@ func (p *pg) block(ind int, vars, ro, bools []string, depth, n int, inLoop bool)
 			} else {
 				p.emit(ind, "fmt.Println(%q, %s)", p.fresh("p"), strings.Join(all(), ", "))
 			}
+		case choice == 20:
+			// two loops of the same shape, one after the other (after a back edge the unchanged code could
+			// resume on the node of the other loop)
+			p.feat["twin-loops"] = true
+			a, b := p.pickVar(vars), p.pickVar(vars)
+			n := 1 + p.r.Intn(2)
+			for _, v := range []string{a, b} {
+				i := p.fresh("i")
+				p.emit(ind, "for %s := 0; %s < %d; %s++ {", i, i, n, i)
+				p.emit(ind+1, "%s = %d", v, 1+p.r.Intn(5))
+				p.emit(ind, "}")
+			}
+		case choice == 21:
+			// loop without condition, left by break
+			p.feat["for-break"] = true
+			k := p.fresh("k")
+			p.emit(ind, "%s := 0", k)
+			p.emit(ind, "for {")
+			p.emit(ind+1, "%s++", k)
+			p.block(ind+1, vars, append(append([]string(nil), ro...), k), bools, depth+1, 1, true)
+			p.emit(ind+1, "if %s >= %d {", k, 1+p.r.Intn(3))
+			p.emit(ind+2, "break")
+			p.emit(ind+1, "}")
+			p.emit(ind, "}")
+		case choice == 22:
+			// continue of an outer loop from an inner one
+			p.feat["continue-label"] = true
+			l, i, j := p.fresh("outer"), p.fresh("i"), p.fresh("j")
+			p.emit(ind, "%s:", l)
+			p.emit(ind, "for %s := 0; %s < 2; %s++ {", i, i, i)
+			p.emit(ind+1, "for %s := 0; %s < 3; %s++ {", j, j, j)
+			p.emit(ind+2, "if %s == %d {", j, 1+p.r.Intn(2))
+			p.emit(ind+3, "continue %s", l)
+			p.emit(ind+2, "}")
+			p.block(ind+2, vars, append(append([]string(nil), ro...), i, j), bools, depth+2, 1, false)
+			p.emit(ind+1, "}")
+			p.emit(ind, "}")
+		case choice == 23:
+			// a loop made of a label and a backward goto
+			p.feat["goto-loop"] = true
+			l, g := p.fresh("again"), p.fresh("g")
+			p.emit(ind, "%s := 0", g)
+			p.emit(ind, "%s:", l)
+			p.emit(ind, "if %s < %d {", g, 1+p.r.Intn(3))
+			p.emit(ind+1, "%s++", g)
+			p.emit(ind+1, "%s = %s", p.pickVar(vars), p.expr(append(all(), g)))
+			p.emit(ind+1, "goto %s", l)
+			p.emit(ind, "}")
+		case choice == 24:
+			// both arms are made by the same generator (the shape of F20), in several flavours
+			p.feat["twin-arms"] = true
+			a, b := p.pickVar(vars), p.pickVar(vars)
+			p.emit(ind, "if %s {", p.cond(all(), bools))
+			switch k := p.r.Intn(4); {
+			case k == 0:
+				p.emit(ind+1, "%s++", a)
+				p.emit(ind, "} else {")
+				p.emit(ind+1, "%s++", b)
+			case k == 1:
+				p.emit(ind+1, "%s += %d", a, 1+p.r.Intn(3))
+				p.emit(ind, "} else {")
+				p.emit(ind+1, "%s += %d", b, 1+p.r.Intn(3))
+			case k == 2 && p.callExpr(all(), 0) != "":
+				p.emit(ind+1, "%s", p.callExpr(all(), 0))
+				p.emit(ind, "} else {")
+				p.emit(ind+1, "%s", p.callExpr(all(), 0))
+			default:
+				p.emit(ind+1, "fmt.Println(%q, %s)", p.fresh("t"), a)
+				p.emit(ind, "} else {")
+				p.emit(ind+1, "fmt.Println(%q, %s)", p.fresh("e"), b)
+			}
+			p.emit(ind, "}")
+		case choice == 25:
+			// else-if chain of constant assignments
+			p.feat["twin-arms"] = true
+			v := p.pickVar(vars)
+			p.emit(ind, "if %s {", p.cond(all(), bools))
+			p.emit(ind+1, "%s = 1", v)
+			for n := 1 + p.r.Intn(3); n > 0; n-- {
+				p.emit(ind, "} else if %s {", p.cond(all(), bools))
+				p.emit(ind+1, "%s = %d", v, 2+n)
+			}
+			p.emit(ind, "} else {")
+			p.emit(ind+1, "%s = 9", v)
+			p.emit(ind, "}")
+		case choice == 26 && len(p.generics) > 0:
+			p.emit(ind, "%s = %s(%s)", p.pickVar(vars), p.generics[p.r.Intn(len(p.generics))], p.atom(all()))
 		default:
 			p.emit(ind, "%s = %s", p.pickVar(vars), p.expr(all()))
 		}
@@ -276,8 +367,8 @@ func (p *pg) block(ind int, vars, ro, bools []string, depth, n int, inLoop bool)
 }
 
 func (p *pg) genHelper() {
-	kind := p.r.Intn(7)
-	if p.noLoops && kind == 3 {
+	kind := p.r.Intn(9)
+	if p.noLoops && (kind == 3 || kind == 8) {
 		kind = 5
 	}
 	switch kind {
@@ -340,6 +431,28 @@ func (p *pg) genHelper() {
 		p.emit(1, "return b")
 		p.emit(0, "}")
 		p.helpers = append(p.helpers, helper{name, 2, 1})
+	case 7: // a return in every arm (closures of one generator)
+		name := p.fresh("sgn")
+		p.emit(0, "func %s(a int) int {", name)
+		p.emit(1, "if a > 3 {")
+		p.emit(2, "return 1")
+		p.emit(1, "} else if a > 1 {")
+		p.emit(2, "return 2")
+		p.emit(1, "} else {")
+		p.emit(2, "return 3")
+		p.emit(1, "}")
+		p.emit(0, "}")
+		p.helpers = append(p.helpers, helper{name, 1, 1})
+	case 8: // a loop that is entered several times (one forwarding closure, many activations)
+		name := p.fresh("cnt")
+		p.emit(0, "func %s(n int) int {", name)
+		p.emit(1, "c := 0")
+		p.emit(1, "for c < n%%3 {")
+		p.emit(2, "c++")
+		p.emit(1, "}")
+		p.emit(1, "return c")
+		p.emit(0, "}")
+		p.helpers = append(p.helpers, helper{name, 1, 1})
 	default: // calls another helper
 		if c := p.callExpr([]string{"a"}, 1); c != "" {
 			name := p.fresh("via")
@@ -372,6 +485,15 @@ func genProgram(r *rand.Rand) progT {
 	for n := p.r.Intn(4); n > 0; n-- {
 		p.genHelper()
 		p.emit(0, "")
+	}
+	if p.r.Intn(30) == 0 {
+		p.feat["generic"] = true
+		name := p.fresh("gid")
+		p.emit(0, "func %s[T any](a T) T {", name)
+		p.emit(1, "return a")
+		p.emit(0, "}")
+		p.emit(0, "")
+		p.generics = append(p.generics, name)
 	}
 	p.emit(0, "func main() {")
 	p.emit(1, "x := %d", p.r.Intn(5))
